@@ -1,4 +1,4 @@
-import XalanModel.C15.Concrete
+import XalanModel.C15.ConcreteProofs
 import XalanModel.Generated.C15_FunctionKey
 import XalanModel.Generated.C15_ExecContext
 import XalanModel.Generated.C15_KeyTable
@@ -74,7 +74,7 @@ def envOf (posZero : Bool) (s : St) : Env String CNode Nat :=
   let docs : Nat → Doc := s.doc
   let root := buildSheet posZero s docs (s.sheets.length + 1) 0
   { keyDeclarations := root.postConstruction, doc := fun k => (docs k).tree, idx := fun n => n.idx,
-    isDoc := fun n => n.kind = .root }
+    isDoc := isDocNode }
 
 def runAll (s : St) : String :=
   let skip := XalanModel.Generated.C15_FunctionKey.skipEmptyRefs
